@@ -30,5 +30,6 @@ def run(ctx):
         ops2 = ops + more + [("dump",), ("rollback",)]
         cases.append(t2.Case("c01-multi-%d" % i, cfg, inits, ops2))
     r = worldrun.run_stream("C01", "histories", cases, model_ok, level=2, oracle=bfsprops.c01_oracle,
+                            t4_sample=(15 if tier == "quick" else 300),
                             desc="corpus of recorded findings + random structured histories of 1-12 mutating operations (all spellings, all entry kinds, special bits, owners, multi-chunk files, all link kinds) over %d layerings, then Rollback (a fifth of them: two transactions in a row); results, trees, tracked state and primitive traces (L2) compared with the model; oracle: Rollback()==nil and base dump before == after (incl. owner, special bits, file mtime); non-trivial = at least one operation succeeded" % len(t2.CONFIGS))
     return {"streams": [r]}
